@@ -222,6 +222,85 @@ def _shrink_job(args: tuple[str, list[int], str, float, dict[str, Any] | None]) 
 
 
 # ---------------------------------------------------------------------------
+# interpreter crashes (segfault / abort inside the code under test)
+# ---------------------------------------------------------------------------
+
+
+def _run_seed_in_child(modname: str, seed: int, params: dict[str, Any] | None, timeout: float = 600.0) -> tuple[int, str]:
+    """Run one seed in a child interpreter; returns (returncode, stderr tail).  A negative code is a signal."""
+    env = dict(os.environ)
+    env["PYTHONHASHSEED"] = "0"
+    env["PYTHONFAULTHANDLER"] = "1"
+    p = subprocess.run([sys.executable, "-m", "dst.harness", "--module", modname, "--one", str(seed), "--tier",
+                        str((params or {}).get("tier", "quick")), "--quiet"], cwd=VERIF, env=env, capture_output=True, text=True, timeout=timeout)
+    return p.returncode, p.stderr
+
+
+def _crash_signature(prop: str, rc: int, stderr: str) -> tuple[str, str]:
+    import signal as _signal
+
+    try:
+        signame = _signal.Signals(-rc).name if rc < 0 else f"exit{rc}"
+    except ValueError:
+        signame = f"signal{-rc}"
+    frame = "unknown-frame"
+    cur = False
+    for ln in stderr.splitlines():
+        if ln.startswith("Current thread"):
+            cur = True
+            continue
+        if cur and ln.strip().startswith("File "):
+            # innermost frame of the crashing thread that lies in the repository under test
+            if "/vgi_rpc/" in ln:
+                fn = ln.split("/vgi_rpc/", 1)[1].split('"')[0]
+                func = ln.rsplit(" in ", 1)[-1].strip()
+                frame = f"{fn}:{func}"
+                break
+        elif cur and not ln.strip():
+            break
+    tail = "\n".join(stderr.strip().splitlines()[:14])
+    return f"{prop}/interpreter-crash/{signame}@{frame}", f"the process running the simulation died with {signame} (exit {rc}):\n{tail}"
+
+
+def _crash_scan(modname: str, tasks: list[tuple[str, list[int], dict[str, Any]]], params: dict[str, Any], procs: int,
+                budget_s: float) -> tuple[list[dict[str, Any]], list[dict[str, Any]], bool]:
+    """Tasks whose worker process died are re-run seed by seed in child interpreters (parallel); returns
+    (ordinary results, crash records, budget exhausted)."""
+    from concurrent.futures import ThreadPoolExecutor
+
+    mod = importlib.import_module(modname)
+    t0 = time.monotonic()
+    seeds = [s for _, ss, _ in tasks for s in ss]
+    crashes: list[dict[str, Any]] = []
+    survivors: list[int] = []
+    exhausted = False
+
+    def one(seed: int) -> tuple[int, int, str]:
+        if time.monotonic() - t0 > budget_s:
+            return seed, 99999, ""
+        try:
+            rc, err = _run_seed_in_child(modname, seed, params)
+        except subprocess.TimeoutExpired:
+            return seed, 99998, ""
+        return seed, rc, err
+
+    with ThreadPoolExecutor(max_workers=procs) as tp:
+        for seed, rc, err in tp.map(one, seeds):
+            if rc in (99999, 99998):
+                exhausted = True
+            elif rc < 0 or rc > 2:
+                sig, text = _crash_signature(mod.PROPERTY, rc, err)
+                crashes.append({"seed": seed, "signature": sig, "text": text})
+            else:
+                survivors.append(seed)
+    # the surviving seeds are run normally (in this process: they are known not to crash)
+    out: list[dict[str, Any]] = []
+    if survivors and not exhausted:
+        out = _worker((modname, survivors, params))
+    return out, crashes, exhausted
+
+
+# ---------------------------------------------------------------------------
 # known findings
 # ---------------------------------------------------------------------------
 
@@ -290,12 +369,14 @@ def run_check(mod: Any, tier: str, base_seed: int, runs: int | None = None, proc
     results: list[dict[str, Any]] = []
     harness_errors: list[str] = []
     timed_out = False
+    crashed_tasks: list[tuple[str, list[int], dict[str, Any]]] = []
     try:
         import multiprocessing as mp
+        from concurrent.futures.process import BrokenProcessPool
 
         with ProcessPoolExecutor(max_workers=procs, mp_context=mp.get_context("fork")) as ex:
             futs = [ex.submit(_worker, t) for t in tasks]
-            for f in futs:
+            for f, t in zip(futs, tasks):
                 left = budget_s - (time.monotonic() - t0)
                 if left <= 0:
                     timed_out = True
@@ -306,7 +387,11 @@ def run_check(mod: Any, tier: str, base_seed: int, runs: int | None = None, proc
                 except TimeoutError:
                     timed_out = True
                     f.cancel()
-                except Exception as exc:  # noqa: BLE001 BrokenProcessPool etc.
+                except BrokenProcessPool:
+                    # a worker PROCESS died (the code under test segfaulted / aborted / called _exit): every pending
+                    # future of the pool fails with it; the crash scan below finds out which seeds do it
+                    crashed_tasks.append(t)
+                except Exception as exc:  # noqa: BLE001
                     harness_errors.append(f"worker failed: {type(exc).__name__}: {exc}")
                     break
             if timed_out or harness_errors:
@@ -318,6 +403,11 @@ def run_check(mod: Any, tier: str, base_seed: int, runs: int | None = None, proc
     except Exception as exc:  # noqa: BLE001
         harness_errors.append(f"pool failed: {type(exc).__name__}: {exc}")
 
+    crash_results: list[dict[str, Any]] = []
+    if crashed_tasks:
+        got, crash_results, left_over = _crash_scan(mod.__name__, crashed_tasks, params, procs, max(30.0, budget_s - (time.monotonic() - t0)))
+        results.extend(got)
+        timed_out = timed_out or left_over
     for r in results:
         if r["error"]:
             harness_errors.append(f"seed {r['seed']}: {r['error']}")
@@ -364,6 +454,31 @@ def run_check(mod: Any, tier: str, base_seed: int, runs: int | None = None, proc
     n_viol = 0
     known_hit: list[str] = []
     todo: list[tuple[str, dict[str, Any]]] = []
+    # interpreter crashes: one signature per (signal, innermost repo frame); replayed by seed in a child process
+    crash_by_sig: dict[str, dict[str, Any]] = {}
+    for c in crash_results:
+        sig_counts[c["signature"]] += 1
+        crash_by_sig.setdefault(c["signature"], c)
+    for sig, c in sorted(crash_by_sig.items()):
+        if sig in known:
+            lines.append(f"KNOWN-FINDING: property={prop} {sig} {known[sig].get('what', '')} (hit {sig_counts[sig]}x)")
+            known_hit.append(sig)
+            continue
+        name = hashlib.blake2b(sig.encode(), digest_size=6).hexdigest()
+        path = os.path.join(REPLAY_DIR, f"{prop}-{name}.json")
+        os.makedirs(os.path.dirname(path), exist_ok=True)
+        with open(path, "w") as f:
+            json.dump({"property": prop, "module": mod.__name__, "signature": sig, "crash": True, "seed": c["seed"], "params": params,
+                       "violation": c["text"], "replay": f"./check {prop} --replay {os.path.relpath(path, VERIF)}"}, f, indent=1)
+        ok, out = _fresh_replay(mod.__name__, path)
+        if not ok:
+            harness_errors.append(f"interpreter crash {sig} (seed {c['seed']}) did not replay:\n{out[-600:]}")
+            continue
+        n_viol += 1
+        exit_code = 1
+        lines.append(f"VIOLATION property={prop} replay={path}")
+        lines.append(f"  signature={sig} seed={c['seed']} hits={sig_counts[sig]} (the interpreter running the real code died)")
+        lines.append("  " + c["text"].replace("\n", "\n  ")[:1500])
     for sig, r in sorted(by_sig.items()):
         if sig in known:
             lines.append(f"KNOWN-FINDING: property={prop} {sig} {known[sig].get('what', '')} (hit {sig_counts[sig]}x)")
@@ -485,6 +600,18 @@ def _repo_tree() -> str:
 def replay_file(mod: Any, path: str, quiet: bool = False) -> int:
     with open(path) as f:
         doc = json.load(f)
+    if doc.get("crash"):
+        rc, err = _run_seed_in_child(mod.__name__, int(doc["seed"]), doc.get("params"))
+        if rc < 0 or rc > 2:
+            sig, text = _crash_signature(doc["property"], rc, err)
+            if sig == doc["signature"]:
+                print(f"VIOLATION property={doc['property']} replay={path}")
+                print("  " + text.replace("\n", "\n  ")[:3000])
+                return 1
+            print(f"not reproduced: {doc['signature']} (the child died differently: {sig})")
+            return 0
+        print(f"not reproduced: {doc['signature']} (the child interpreter survived, exit {rc})")
+        return 0
     r = run_once(mod, tape=doc["tape"], params=doc.get("params"))
     if r["error"]:
         print("HARNESS-ERROR during replay:\n" + r["error"])
